@@ -54,6 +54,9 @@ META = dict(
 )
 
 
+META["rule"] += (
+    " " + 'Added later: `cache_clear()` / `clear_cache()` as neutral steps of a history (every answer must stay what it is).')
+
 def pre_import():
     from pvm.mon import shadow_cache
     shadow_cache.install()
